@@ -1684,6 +1684,8 @@ def builtin_method_hook(interp, f, args, kwargs):
         return _strsym.str_format(interp, slf, args, kwargs)
     if isinstance(slf, _re.Pattern) and name in ("match", "fullmatch", "search") and deep_sym(args):
         return _strsym.regex_call(interp, slf, name, *args)
+    if isinstance(slf, _timesym.SDateTime) and name in ("strftime", "isoformat"):
+        return NOHOOK
     if isinstance(slf, str) and not isinstance(slf, type) and name == "join" and args and deep_sym(list(args[0]) if isinstance(args[0], (list, tuple)) else args[0]):
         parts = list(args[0])
         out = []
@@ -1849,3 +1851,8 @@ def np_max_obj(interp, a, axis=None, **k):
     if deep_sym(a):
         raise OutsideSubset("np.max of a symbolic array")
     return np.max(a, axis=axis, **k)
+
+
+@model(_datetime.datetime.strptime, always=True)
+def dt_strptime(interp, s, fmt):
+    return _timesym.strptime_model(interp, s, fmt)
